@@ -64,6 +64,20 @@ Theorem lookup_close_overlap_refuted :
 Proof. exact lookup_close_overlap_refuted_proved. Qed.
 Print Assumptions lookup_close_overlap_refuted.
 
+(* the order of the two shutdown calls of the snapshot pool (generated fact
+   pool_stops_workers_before_unload) is needed by the theorems above: with
+   unloadNodes() before workerStopper.Stop() NodeHost.Close lets the user Close
+   run beside an in-flight SaveSnapshot (plain) / RecoverFromSnapshot (core) *)
+Theorem unload_before_stop_refuted :
+  (let st := run (cfg_unload_first Plain 1) (init 4) (unload_first_schedule JSave 4) in
+   calls st = [(1, MClose); (2, MSave)] /\ overlap plain_rw plain_excl st = true)
+  /\ (let st := run (cfg_unload_first Conc 1) (init 4) (unload_first_schedule JRecover 4) in
+      calls st = [(1, MClose); (2, MRecover)] /\ overlap core core st = true)
+  /\ calls (run (gen_cfg Plain 1) (init 4) (unload_first_schedule JSave 4)) = [(2, MSave)]
+  /\ calls (run (gen_cfg Conc 1) (init 4) (unload_first_schedule JRecover 4)) = [(2, MRecover)].
+Proof. exact unload_before_stop_refuted_proved. Qed.
+Print Assumptions unload_before_stop_refuted.
+
 (* ---- the sequential apply path ---- *)
 (* the indexes handed to Update are strictly increasing, for every task queue *)
 Theorem update_indexes_strictly_increasing :
